@@ -358,3 +358,66 @@ func faultPhase(events []world.Event) string {
 	}
 	return "none"
 }
+
+// revTracker remembers, from what the harness itself observed after every step, which spec produced each stored
+// revision's manifest and which revisions were ever seen with status deployed.
+type revTracker struct {
+	everDep map[int]string          // revision -> manifest, observed with status deployed after some step
+	specOf  map[int]world.ChartSpec // revision -> chart spec that produced its manifest (rollbacks copy the target's)
+}
+
+func newRevTracker() *revTracker {
+	return &revTracker{everDep: map[int]string{}, specOf: map[int]world.ChartSpec{}}
+}
+
+// observe records which revisions were seen deployed and which spec each revision's manifest came from.
+func (j *revTracker) observe(op *world.Op, res *world.Result) {
+	preSet, postSet := revSet(res.Pre), revSet(res.Post)
+	// forget revisions that no longer exist (purge, pruning): revision numbers restart after an uninstall
+	for v := range j.specOf {
+		if _, ok := postSet[v]; !ok {
+			delete(j.specOf, v)
+		}
+	}
+	for v := range j.everDep {
+		if _, ok := postSet[v]; !ok {
+			delete(j.everDep, v)
+		}
+	}
+	var created []int
+	for _, r := range res.Post {
+		if _, ok := preSet[r.Version]; !ok {
+			created = append(created, r.Version)
+		}
+	}
+	sort.Ints(created)
+	for i, c := range created {
+		delete(j.specOf, c)
+		delete(j.everDep, c)
+		if i == 0 && (op.Kind == "install" || op.Kind == "upgrade") {
+			j.specOf[c] = op.Chart
+		}
+	}
+	// revisions created by rollbacks (explicit, or the internal one of --atomic) copy a stored manifest: map by manifest text
+	for _, c := range created {
+		if _, ok := j.specOf[c]; ok {
+			continue
+		}
+		vs := make([]int, 0, len(j.specOf))
+		for v := range j.specOf {
+			vs = append(vs, v)
+		}
+		sort.Ints(vs)
+		for _, v := range vs {
+			if pr, ok := postSet[v]; ok && pr.Manifest == postSet[c].Manifest {
+				j.specOf[c] = j.specOf[v]
+				break
+			}
+		}
+	}
+	for _, r := range res.Post {
+		if r.Status == "deployed" {
+			j.everDep[r.Version] = r.Manifest
+		}
+	}
+}
